@@ -366,6 +366,13 @@ class Ex:
             return Val(ty, z3.ToReal(v.t))
         if k == "any":
             return v
+        if k == "rec" and vk == "emptydict":
+            # `{}` stored where a record dict (literal string keys) is expected: a new record without any of the declared keys
+            r = self.new_obj("rec")
+            for (c_, f_) in sorted(spec.FIELD_TYPES, key=str):
+                if c_ == "$rec":
+                    self.wr(r, f"has${f_}", vbool(False))
+            return Val(Ty("rec"), r, meta=dict(keys={}))
         raise Unsupported(f"cannot coerce {v.ty} to {ty}")
 
     def truth(self, v):
@@ -1524,9 +1531,16 @@ class Ex:
         if "dataclass" in ci.decorators and (init is None or init.cls != cname):
             self.dataclass_init(ci, obj, args, kwargs, fr, node)
             return obj
-        if init is None:
-            return obj
-        self.call_function(init, obj, args, kwargs, fr, node)
+        if init is not None:
+            self.call_function(init, obj, args, kwargs, fr, node)
+        for c in src.mro(cname):
+            gd = spec.ON_CONSTRUCT.get(c)
+            if gd is not None:
+                from . import speceval
+                gfr = Frame(None, {"self": obj}, None)
+                gfr.spec = True
+                self.assume(speceval.clause(self, gd, gfr))
+                self.used_models.add(f"ghost definition at construction of {c}: {gd.label}")
         return obj
 
     def dataclass_init(self, ci, obj, args, kwargs, fr, node):
@@ -1593,6 +1607,8 @@ class Ex:
                     cfr2.old = fr.old
                     for i, a in enumerate(args):
                         cfr2.locals[f"arg{i}"] = a
+                    for kn, a in (kwargs or {}).items():
+                        cfr2.locals[f"kw_{kn}"] = a
                     if self_val is not None:
                         cfr2.locals["recv"] = self_val
                     for c in cls_:
